@@ -831,3 +831,438 @@ def joint_sample(n, m, rng, count, addrs=(0, 2), full=False):
             parts.append(a[:BP + 1] + b[ARR:])
         out.append(tuple(itertools.chain.from_iterable(parts)))
     return out
+
+
+# ---------------------------------------------------------------------------------------------------------
+# AXI-legal environment (feedback generator for mode B and the failing-input search)
+
+class AxiEnv:
+    """Masters and slaves that follow AXI4(-Lite): a valid, once raised, is held with a stable payload until the
+    ready; a slave raises B only after it accepted the address and the (last) data beat, R only after the address;
+    responses are given in request order.  Masters keep up to `max_out` requests in flight per direction, present
+    write data before, with or after the address acceptance and back-pressure responses; slaves accept addresses
+    and data in any order with random stalls.  AXI4: bursts of 1..4 beats (`len` in `a*.pay`, `last` on the final
+    beat).  Idle payload lines carry garbage.
+
+    domain=True keeps the run inside the hypotheses of `axl_route_partial`:
+      SameSlaveWhileLocked — while a master has responses outstanding in a direction, a new address of that
+                             direction goes to the slave of the outstanding ones;
+      NoDataBeforeAddr     — a write data burst is presented only once its address is accepted or being presented.
+    domain=False leaves both (and adds unmapped addresses that are withdrawn after a while); such runs are used
+    for the model correspondence only.
+    Stall/issue probabilities change every 128 cycles (0/10/50/90/100 % sweeps)."""
+
+    def __init__(self, inst, max_out=8, domain=None, garbage=True):
+        self.inst = inst
+        self.n, self.m = inst.n, inst.m
+        self.full = inst.full
+        self.max_out = max_out
+        self.domain = inst.domain if domain is None else domain
+        self.garbage = garbage
+        n, m = self.n, self.m
+        pm = inst.mmaps[0]
+        port = inst.masters[0]
+        w = lambda sigs: sum(len(s) for s in sigs)
+        self.aw_w, self.w_w, self.b_w, self.ar_w, self.r_w = (w(pm.ms[AWP]), w(pm.ms[WP]), w(pm.sm[BP]), w(pm.ms[ARP]),
+                                                              w(pm.sm[RP]))
+        self.addr_w = len(port.aw.addr)
+        if self.full:
+            self.awlen = pm.field("aw", "len", port, True)
+            self.arlen = pm.field("ar", "len", port, True)
+            self.wlast_bit = self.w_w - 1
+        # masters, per direction d (0 write, 1 read)
+        self.a_cur = [[None, None] for _ in range(n)]       # address being presented: (addr, pay)
+        self.a_acc = [[0, 0] for _ in range(n)]
+        self.resp = [[0, 0] for _ in range(n)]
+        self.lock = [[None, None] for _ in range(n)]        # slave of the latest issued address
+        self.a_age = [[0, 0] for _ in range(n)]
+        self.wbeats = [[] for _ in range(n)]                # pays of write beats still to present (in order)
+        self.w_cur = [None] * n
+        self.early = [0] * n                                # out-of-domain: beats queued ahead of their address
+        # slaves
+        self.s_aw = [0] * m
+        self.s_wl = [0] * m
+        self.s_b = [0] * m
+        self.b_cur = [None] * m
+        self.rq = [[] for _ in range(m)]                    # beats remaining per accepted read burst
+        self.r_cur = [None] * m
+        self.pools = None
+
+    # -- helpers --------------------------------------------------------------------------------
+    def _pools(self, rng):
+        inst = self.inst
+        if self.pools is None:
+            sh = inst.addr_shift
+            mask = (1 << self.addr_w) - 1
+            self.pools = []
+            for j in range(self.m):
+                ex = []
+                for _ in range(12):
+                    a = ((inst.decs[j].example(rng, inst.bus) << sh) | rng.getrandbits(sh)) & mask if sh else \
+                        inst.decs[j].example(rng, inst.bus) & mask
+                    if inst.target(a) == [j]:
+                        ex.append(a)
+                self.pools.append(ex)
+            un = [a for a in (rng.getrandbits(self.addr_w) for _ in range(64)) if not inst.target(a)]
+            self.unmapped = un[:8]
+        return self.pools
+
+    def _new_addr(self, rng, i, d):
+        pools = self._pools(rng)
+        out = self.a_acc[i][d] - self.resp[i][d]
+        busy = out > 0 or (d == 0 and (self.wbeats[i] or self.w_cur[i] is not None))
+        cand = [j for j in range(self.m) if pools[j]]
+        if not cand:
+            return None
+        if self.domain:
+            if busy and self.lock[i][d] is not None:
+                j = self.lock[i][d]
+            else:
+                j = rng.choice(cand)
+            return rng.choice(pools[j]), j
+        r = rng.random()
+        if r < 0.04 and self.unmapped:
+            return rng.choice(self.unmapped), None
+        j = rng.choice(cand)
+        return rng.choice(pools[j]), j
+
+    def _handshakes(self, last):
+        """Update all counters from the previous cycle's letter and outputs."""
+        letter, outs = last
+        n, m = self.n, self.m
+        ms, ss = split_letter(letter, n, m)
+        to_s, to_m = split_outs(outs, n, m)
+        for i in range(n):
+            x, o = ms[i], to_m[i]
+            if x[AWV] and o[AWR]:
+                self.a_cur[i][0] = None
+                self.a_acc[i][0] += 1
+            if x[WV] and o[WR]:
+                self.w_cur[i] = None
+            if o[BV] and x[BR]:
+                self.resp[i][0] += 1
+            if x[ARV] and o[ARR]:
+                self.a_cur[i][1] = None
+                self.a_acc[i][1] += 1
+            if o[RV] and x[RR] and (o[RL] or not self.full):
+                self.resp[i][1] += 1
+        for j in range(m):
+            x, o = ss[j], to_s[j]
+            if o[AWV] and x[AWR]:
+                self.s_aw[j] += 1
+            if o[WV] and x[WR] and ((o[WP] >> self.wlast_bit) & 1 if self.full else 1):
+                self.s_wl[j] += 1
+            if x[BV] and o[BR]:
+                self.s_b[j] += 1
+                self.b_cur[j] = None
+            if o[ARV] and x[ARR]:
+                beats = (((o[ARP] >> self.arlen[0]) & ((1 << self.arlen[1]) - 1)) + 1) if self.full else 1
+                self.rq[j].append(beats)
+            if x[RV] and o[RR]:
+                self.r_cur[j] = None
+                if self.rq[j]:
+                    self.rq[j][0] -= 1
+                    if self.rq[j][0] <= 0:
+                        self.rq[j].pop(0)
+
+    def next_letter(self, rng, t, last):
+        n, m = self.n, self.m
+        if last is not None:
+            self._handshakes(last)
+        regime = (t // 128) % 8
+        p_start = (0.5, 1.0, 0.1, 0.9, 0.6, 0.3, 1.0, 0.5)[regime]
+        p_mready = (0.5, 1.0, 0.9, 0.1, 1.0, 0.5, 0.0 if (t % 128) < 64 else 1.0, 0.9)[regime]
+        p_sready = (0.5, 1.0, 0.9, 0.5, 0.1, 1.0, 0.9, 0.0 if (t % 128) < 32 else 0.7)[regime]
+        p_resp = (0.5, 1.0, 0.3, 0.9, 0.5, 0.1, 0.9, 0.6)[regime]
+        p_data = (0.5, 1.0, 0.9, 0.5, 0.2, 0.7, 1.0, 0.4)[regime]
+        g = (lambda w: rng.getrandbits(w)) if self.garbage else (lambda w: 0)
+        parts = []
+        for i in range(n):
+            for d in (0, 1):
+                if self.a_cur[i][d] is not None:
+                    self.a_age[i][d] += 1
+                    if not self.domain and self.a_cur[i][d][2] is None and self.a_age[i][d] > 6 and rng.random() < 0.3:
+                        # an unmapped address is never accepted: withdraw it (outside AXI, outside the domain)
+                        if d == 0:
+                            drop = self.a_cur[i][0][3]
+                            if drop:
+                                del self.wbeats[i][len(self.wbeats[i]) - drop:]
+                        self.a_cur[i][d] = None
+                    continue
+                out = self.a_acc[i][d] - self.resp[i][d]
+                if out < self.max_out and rng.random() < p_start:
+                    na = self._new_addr(rng, i, d)
+                    if na is None:
+                        continue
+                    addr, j = na
+                    wpay = self.aw_w if d == 0 else self.ar_w
+                    pay = rng.getrandbits(wpay)
+                    beats = 1
+                    if self.full:
+                        sh, wd = self.awlen if d == 0 else self.arlen
+                        beats = rng.choice((1, 1, 2, 3, 4))
+                        pay = (pay & ~(((1 << wd) - 1) << sh)) | ((beats - 1) << sh)
+                    nb = 0
+                    if d == 0:
+                        nb = beats
+                        if self.early[i]:
+                            nb = 0 if self.early[i] >= beats else beats - self.early[i]
+                            self.early[i] = 0
+                        for k in range(beats - nb, beats):
+                            wp = rng.getrandbits(self.w_w)
+                            if self.full:
+                                wp = (wp & ~(1 << self.wlast_bit)) | ((1 if k == beats - 1 else 0) << self.wlast_bit)
+                            self.wbeats[i].append(wp)
+                    self.a_cur[i][d] = (addr, pay, j, nb)
+                    self.a_age[i][d] = 0
+                    if j is not None:
+                        self.lock[i][d] = j
+            # write data
+            if self.w_cur[i] is None:
+                if self.wbeats[i] and rng.random() < p_data:
+                    self.w_cur[i] = self.wbeats[i].pop(0)
+                elif (not self.domain) and not self.wbeats[i] and self.a_cur[i][0] is None and self.early[i] == 0 \
+                        and not self.full and rng.random() < 0.05:
+                    # data ahead of its address (outside NoDataBeforeAddr)
+                    self.w_cur[i] = rng.getrandbits(self.w_w)
+                    self.early[i] = 1
+            aw, ar = self.a_cur[i]
+            parts.append(m_part(aw=(aw[0], aw[1]) if aw else None, idle_aw=(g(self.addr_w), g(self.aw_w)),
+                                w=self.w_cur[i], idle_w=g(self.w_w), b_ready=int(rng.random() < p_mready),
+                                ar=(ar[0], ar[1]) if ar else None, idle_ar=(g(self.addr_w), g(self.ar_w)),
+                                r_ready=int(rng.random() < p_mready)))
+        for j in range(m):
+            if self.b_cur[j] is None and self.s_b[j] < min(self.s_aw[j], self.s_wl[j]) and rng.random() < p_resp:
+                self.b_cur[j] = rng.getrandbits(self.b_w)
+            if self.r_cur[j] is None and self.rq[j] and rng.random() < p_resp:
+                lastbit = int(self.rq[j][0] == 1) if self.full else rng.getrandbits(1)
+                self.r_cur[j] = (lastbit, rng.getrandbits(self.r_w))
+            parts.append(s_part(aw_ready=int(rng.random() < p_sready), w_ready=int(rng.random() < p_sready),
+                                b=self.b_cur[j], idle_b=g(self.b_w), ar_ready=int(rng.random() < p_sready),
+                                r=self.r_cur[j], idle_r=(g(1), g(self.r_w))))
+        return tuple(itertools.chain.from_iterable(parts))
+
+
+class WalkEnv:
+    """Uniformly random letters of the instance's mode-A alphabet (arbitrary, not protocol-following)."""
+    def __init__(self, inst, **kw):
+        self.inst = inst
+
+    def next_letter(self, rng, t, last):
+        return rng.choice(self.inst.alphabet)
+
+
+# ---------------------------------------------------------------------------------------------------------
+# property oracle (independent of the Lean model)
+
+class AxiMonitor:
+    """Checks C08 on a trace of (letter, outs) of the real code.  It knows only the topology (`kind`), the number of
+    ports, AXI-Lite vs AXI4 (where `last` sits) and the address map as a Python predicate (`inst.target`).
+
+    Per cycle, per direction (write: AW/W/B, read: AR/R):
+      P  (protocol)   what the fabric drives is AXI-legal: a valid it raised at a slave port (AW/W/AR) or at a master
+                      port (B/R) stays up with an unchanged payload until the ready.        [domain runs only]
+      A  (address)    every address handshake at a master is, in the same cycle, an address handshake with the same
+                      payload at exactly one slave — the one whose region contains the address — and every address
+                      handshake at a slave is matched by exactly one master.
+      D  (data)       every write-data handshake at a master is a handshake with the same payload at exactly one
+                      slave: the slave of that master's oldest address still waiting for data, or — data ahead of
+                      the address acceptance — the slave of the address it is presenting; the address later goes
+                      to the same slave.
+      R  (response)   every response handshake at slave j is delivered in the same cycle, with the same payload, to
+                      exactly one master: the issuer of slave j's oldest unanswered request (scoreboard: one FIFO of
+                      issuers per slave); every response handshake at a master is matched by exactly one slave, and
+                      it answers that master's oldest unanswered request (one FIFO of slaves per master).
+      L  (lock)       the unanswered requests of a shared bus (crossbar: of one slave) all belong to one master.
+      W  (wait)       while a master keeps presenting an address for the bus (crossbar: for slave j), at most n-1
+                      lock periods of other masters start.
+    With inst.domain = False (runs outside SameSlaveWhileLocked / NoDataBeforeAddr, or with non-AXI environments)
+    only the address-independent part is checked: A/D/R as payload-equal pairings in the same cycle."""
+
+    def __init__(self, inst, hyp=True):
+        self.inst = inst
+        self.n, self.m = inst.n, inst.m
+        self.kind = inst.kind
+        self.full = inst.full
+        self.domain = inst.domain
+        self.hyp = hyp          # False: judge the property without the two hypotheses (used by the finding probes)
+        self.void = None        # set when the *environment* left AXI / the hypotheses: nothing is checked afterwards
+        n, m = self.n, self.m
+        self.prev = None
+        self.fifo = [[[] for _ in range(m)] for _ in (0, 1)]       # issuers per slave
+        self.mq = [[[] for _ in range(n)] for _ in (0, 1)]         # slaves per master (issue order)
+        self.wq = [[] for _ in range(n)]                           # slaves of accepted addresses awaiting data
+        self.early = [None] * n                                    # (slave, burst complete) of data sent ahead
+        nres = m if self.kind == "xbar" else 1
+        self.nres = nres
+        self.owner = [[None] * nres for _ in (0, 1)]               # last master seen handshaking on the resource
+        self.waitchg = [[[0] * n for _ in range(nres)] for _ in (0, 1)]
+        if self.full:
+            self.wlast_bit = sum(len(s) for s in inst.mmaps[0].ms[WP]) - 1
+
+    def _wlast(self, pay):
+        return ((pay >> self.wlast_bit) & 1) if self.full else 1
+
+    def _res(self, j):
+        return j if self.kind == "xbar" else 0
+
+    @staticmethod
+    def _take(lst, pred):
+        for k, x in enumerate(lst):
+            if pred(x):
+                return lst.pop(k)
+        return None
+
+    def observe(self, letter, outs):
+        inst, n, m = self.inst, self.n, self.m
+        if self.void is not None:
+            return None
+        letter = inst._letter if getattr(inst, "limit", None) is not None and inst._letter is not None else letter
+        ms, ss = split_letter(letter, n, m)
+        to_s, to_m = split_outs(outs, n, m)
+        dom = self.domain
+        # ---- P: stability of what the fabric drives ------------------------------------------------------
+        if dom and self.prev is not None:
+            pms, pss, pts, ptm = self.prev
+            for j in range(m):
+                for (v, r, pl, nm) in ((AWV, AWR, (AWA, AWP), "aw"), (WV, WR, (WP,), "w"), (ARV, ARR, (ARA, ARP), "ar")):
+                    if pts[j][v] and not pss[j][r]:
+                        if not to_s[j][v]:
+                            return "P: slave %d: %s.valid dropped before %s.ready" % (j, nm, nm)
+                        if any(pts[j][k] != to_s[j][k] for k in pl):
+                            return "P: slave %d: %s payload changed while waiting for ready" % (j, nm)
+            for i in range(n):
+                for (v, r, pl, nm) in ((BV, BR, (BP,), "b"), (RV, RR, (RL, RP), "r")):
+                    if ptm[i][v] and not pms[i][r]:
+                        if not to_m[i][v]:
+                            return "P: master %d: %s.valid dropped before %s.ready" % (i, nm, nm)
+                        if any(ptm[i][k] != to_m[i][k] for k in pl):
+                            return "P: master %d: %s payload changed while waiting for ready" % (i, nm)
+        self.prev = (ms, ss, to_s, to_m)
+        for d in (0, 1):
+            AV, AA, AP, AR_ = (AWV, AWA, AWP, AWR) if d == 0 else (ARV, ARA, ARP, ARR)
+            XV, XP, XR = (BV, BP, BR) if d == 0 else (RV, RP, RR)
+            dn = "write" if d == 0 else "read"
+            # ---- R: responses (older than anything accepted in this cycle) -------------------------------
+            SB = [(j, ss[j][XP], ss[j][RL] if d else 0) for j in range(m) if ss[j][XV] and to_s[j][BR if d == 0 else RR]]
+            MB = [(i, to_m[i][XP], to_m[i][RL] if d else 0) for i in range(n) if to_m[i][XV] and ms[i][BR if d == 0 else RR]]
+            for (j, pay, lst) in SB:
+                final = (not d) or (not self.full) or lst
+                if dom:
+                    if not self.fifo[d][j]:
+                        self.void = "slave %d gives a %s response although it holds no unanswered request" % (j, dn)
+                        return None
+                    i = self.fifo[d][j][0]
+                    got = self._take(MB, lambda x: x[0] == i and x[1] == pay and x[2] == lst)
+                    if got is None:
+                        return "R: %s response of slave %d (payload %#x) is not delivered to master %d, the issuer of its oldest unanswered request; masters receiving a response: %r" % (dn, j, pay, i, MB)
+                    if not self.mq[d][i] or self.mq[d][i][0] != j:
+                        return "R: master %d receives a %s response from slave %d but its oldest unanswered request went to %r" % (
+                            i, dn, j, self.mq[d][i][:1])
+                    if final:
+                        self.fifo[d][j].pop(0)
+                        self.mq[d][i].pop(0)
+                else:
+                    got = self._take(MB, lambda x: x[1] == pay and x[2] == lst)
+                    if got is None:
+                        return "R: %s response of slave %d (payload %#x) reaches no master in this cycle" % (dn, j, pay)
+            if MB:
+                return "R: master %d receives a %s response that no slave hands over in this cycle" % (MB[0][0], dn)
+            # ---- A: addresses --------------------------------------------------------------------------
+            MA = [(i, ms[i][AA], ms[i][AP]) for i in range(n) if ms[i][AV] and to_m[i][AR_]]
+            SA = [(j, to_s[j][AA], to_s[j][AP]) for j in range(m) if to_s[j][AV] and ss[j][AR_]]
+            acc = []      # (master, slave) pairs accepted in this cycle
+            for (i, addr, pay) in MA:
+                tg = inst.target(addr)
+                if dom and len(tg) == 1:
+                    got = self._take(SA, lambda x: x[0] == tg[0] and x[1] == addr and x[2] == pay)
+                    if got is None:
+                        return "A: %s address %#x of master %d is accepted but slave %d (its region) sees no such handshake; slaves accepting: %r" % (dn, addr, i, tg[0], SA)
+                elif dom and not tg:
+                    return "A: %s address %#x of master %d maps to no slave but is accepted" % (dn, addr, i)
+                else:
+                    got = self._take(SA, lambda x: x[1] == addr and x[2] == pay)
+                    if got is None:
+                        return "A: %s address %#x of master %d is accepted but no slave sees the handshake" % (dn, addr, i)
+                acc.append((i, got[0]))
+            if SA:
+                return "A: slave %d accepts a %s address that no master hands over in this cycle" % (SA[0][0], dn)
+            for (i, j) in acc:
+                self.fifo[d][j].append(i)
+                self.mq[d][i].append(j)
+                if d == 0:
+                    e = self.early[i]
+                    if e is not None:
+                        if dom and e[0] != j:
+                            return "D: master %d's write data went to slave %d ahead of its address, the address then went to slave %d" % (i, e[0], j)
+                        if not e[1]:
+                            self.wq[i].append(j)
+                        self.early[i] = None
+                    else:
+                        self.wq[i].append(j)
+            # ---- D: write data -------------------------------------------------------------------------
+            if d == 0:
+                MW = [(i, ms[i][WP]) for i in range(n) if ms[i][WV] and to_m[i][WR]]
+                SW = [(j, to_s[j][WP]) for j in range(m) if to_s[j][WV] and ss[j][WR]]
+                for (i, pay) in MW:
+                    exp = None
+                    if dom:
+                        if self.wq[i]:
+                            exp = self.wq[i][0]
+                            if self._wlast(pay):
+                                self.wq[i].pop(0)
+                        elif self.early[i] is not None and not self.early[i][1]:
+                            exp = self.early[i][0]
+                            self.early[i] = (exp, bool(self._wlast(pay)))
+                        elif ms[i][AWV]:
+                            tg = inst.target(ms[i][AWA])
+                            if len(tg) == 1:
+                                exp = tg[0]
+                                self.early[i] = (exp, bool(self._wlast(pay)))
+                        elif self.hyp:
+                            self.void = "master %d hands over write data before presenting its address (outside NoDataBeforeAddr)" % i
+                            return None
+                        else:
+                            got = self._take(SW, lambda x: x[1] == pay)
+                            if got is None:
+                                return "D: write data %#x of master %d is accepted but no slave sees the handshake" % (pay, i)
+                            self.early[i] = (got[0], bool(self._wlast(pay)))
+                            continue
+                    if exp is not None:
+                        got = self._take(SW, lambda x: x[0] == exp and x[1] == pay)
+                        if got is None:
+                            return "D: write data %#x of master %d is accepted but slave %d (where its address went / goes) sees no such handshake; slaves accepting data: %r" % (pay, i, exp, SW)
+                    else:
+                        got = self._take(SW, lambda x: x[1] == pay)
+                        if got is None:
+                            return "D: write data %#x of master %d is accepted but no slave sees the handshake" % (pay, i)
+                if SW:
+                    return "D: slave %d accepts write data that no master hands over in this cycle" % SW[0][0]
+            # ---- L: one owner per resource ---------------------------------------------------------------
+            if dom:
+                if self.kind == "xbar":
+                    for j in range(m):
+                        if len(set(self.fifo[d][j])) > 1:
+                            return "L: slave %d holds unanswered %s requests of several masters %r" % (j, dn, self.fifo[d][j])
+                else:
+                    owners = {i for j in range(m) for i in self.fifo[d][j]}
+                    if len(owners) > 1:
+                        return "L: the shared bus holds unanswered %s requests of several masters %r" % (dn, sorted(owners))
+                # ---- W: bounded waiting -----------------------------------------------------------------
+                for r in range(self.nres):
+                    hs = [i for (i, j) in acc if self._res(j) == r]
+                    for i in range(n):
+                        want = ms[i][AV] and (self.kind != "xbar" or inst.target(ms[i][AA]) == [r])
+                        if not want or i in hs:
+                            self.waitchg[d][r][i] = 0
+                    for i2 in hs:
+                        if self.owner[d][r] is not None and self.owner[d][r] != i2:
+                            for i in range(n):
+                                want = ms[i][AV] and (self.kind != "xbar" or inst.target(ms[i][AA]) == [r])
+                                if want and i != i2:
+                                    self.waitchg[d][r][i] += 1
+                                    if self.waitchg[d][r][i] > max(n - 1, 0):
+                                        return "W: master %d kept presenting a %s address while %d lock periods of other masters started (bound %d)" % (
+                                            i, dn, self.waitchg[d][r][i], n - 1)
+                        self.owner[d][r] = i2
+        return None
